@@ -31,20 +31,28 @@ func zzC18_tcp_wiring() {
 	symAssume(d1 > 0 && d1 < period)
 	t1 := t0 + d1
 	symSetNow(time.Unix(0, t1))
+	var seg []byte
 	switch symChoose("received", 4) {
 	case 0:
-		nc.in <- zzMkFrame(codes.GET, message.Token{0x77}, nil)
+		seg = zzMkFrame(codes.GET, message.Token{0x77}, nil)
 		symCover("request")
 	case 1:
-		nc.in <- zzMkFrame(codes.Ping, message.Token{0x78}, nil)
+		seg = zzMkFrame(codes.Ping, message.Token{0x78}, nil)
 		symCover("peer-ping")
 	case 2:
-		nc.in <- zzMkFrame(codes.Pong, message.Token{0x79}, nil)
+		seg = zzMkFrame(codes.Pong, message.Token{0x79}, nil)
 		symCover("stray-pong")
 	case 3:
-		nc.in <- zzMkFrame(codes.Content, message.Token{0x55}, []byte{1})
+		seg = zzMkFrame(codes.Content, message.Token{0x55}, []byte{1})
 		symCover("unexpected-response")
 	}
+	if symChoose("followed-by-the-beginning-of-another-message", 2) == 1 {
+		// the same read also holds the first bytes of a message whose remainder is still on its way
+		next := zzMkFrame(codes.GET, message.Token{0x66, 0x67}, []byte{1, 2, 3})
+		seg = append(append([]byte(nil), seg...), next[:2]...)
+		symCover("partial-tail")
+	}
+	nc.in <- seg
 	symIdle()
 	d2 := symI64("d2")
 	symAssume(d2 > 0 && d2 < 3*period)
